@@ -13,7 +13,7 @@ EXPLANATION = (
     "the front ends build is Inner or Cross (otherwise the optimizer must test the join type); (R5) the variable collectors "
     "behind those scope tests visit every sub-expression field of every expression kind; (R4, informational) the "
     "join-reorder collector keeps filter wrappers of its relations. R5 also: the visit of a child does not hinge on a sibling field. "
-    "(R6) the operator-level collector behind the join-side test visits every child operator of every operator kind (scope-resetting operators excepted with reasons). "
+    "(R7) the collector of the join conditions between two relation sets walks the whole edge list of the join graph (no short-circuit search, no early loop exit), so a reordered join keeps the predicates of every crossing edge. (R6) the operator-level collector behind the join-side test visits every child operator of every operator kind (scope-resetting operators excepted with reasons). "
     "Semantic equivalence of plans is not decided.")
 ASSUMPTIONS = ["variant names of LogicalOperator / JoinType identify operator kinds"]
 
@@ -175,6 +175,56 @@ def run(ctx):
                     "below are missing from the set the join-side test uses, and a predicate on them is pushed into the other "
                     "join input" % (got, need, v["name"]), where=oc.loc())
     ctx.floor("R6", nchild, 25, "operator kinds with child operators")
+
+    # ---- R7 the conditions attached to a reordered join are those of *every* join-graph edge that crosses the cut
+    # DPccp builds each join from JoinGraph::get_conditions(left, right). On a cyclic join graph, or with a composite key,
+    # several edges cross one cut; a collector that stops at the first crossing edge drops the other predicates and the
+    # reordered plan returns extra rows. The collector (and every helper it calls in the module) therefore walks the whole
+    # edge list: no short-circuiting search over `edges`, and its loop over `edges` leaves only on exhaustion.
+    from .c12_k8 import natural_loops
+    gc = P.fn("JoinGraph::get_conditions")
+    mod = gc.id.rsplit("::", 2)[0] + "::"
+    S = set()
+    work = [gc]
+    while work:
+        g = work.pop()
+        if g.id in S:
+            continue
+        S.add(g.id)
+        for h in P.family(g):
+            if h.id not in S:
+                work.append(h)
+        for bi, t in g.calls():
+            for c in set(P.call_targets(t)) | {callee_name(t)}:
+                if c in P.fns and c.startswith(mod) and "BitSet" not in c and c not in S:
+                    work.append(P.fns[c])
+    SHORT = ("find", "find_map", "position", "any", "all", "first", "last", "nth", "take", "take_while", "skip_while", "min_by", "max_by",
+             "min_by_key", "max_by_key", "next_back", "rposition")
+    n7 = 0
+    bad = None
+    for gid in sorted(S):
+        g = P.fns[gid]
+        gx = FlowCx(P, g)
+        for bi, t in g.calls():
+            nm = (t.get("f") or callee_name(t)).split("::")[-1]
+            if not t["args"] or not any(x == "cell:JoinGraph.edges" for x in gx.tags(t["args"][0])):
+                continue
+            n7 += 1
+            if nm in SHORT:
+                bad = (g, t["line"], "a short-circuiting `%s` over the edge list" % nm)
+            if nm == "next" and g.kind != "closure":
+                for h, body in natural_loops(g):
+                    if bi not in body:
+                        continue
+                    sw = t.get("t")
+                    exits = {a for a in body for b_ in g.succ()[a] if b_ not in body}
+                    if exits - {sw, bi}:
+                        bad = (g, t["line"], "a loop over the edge list that can be left before the list is exhausted")
+    ctx.floor("R7", n7, 1, "uses of JoinGraph.edges in the condition collector")
+    ctx.ob("R7", "JoinGraph::get_conditions#all-crossing-edges", bad is None,
+           what="JoinGraph::get_conditions does not walk the whole edge list (%s in %s): a cut crossed by several edges - a cyclic join "
+                "graph, a composite key - keeps only one edge's conditions and the reordered plan returns extra rows"
+                % (bad[2] if bad else "", short_id(bad[0].id) if bad else ""), where=(bad[0].loc(bad[1]) if bad else gc.loc()))
 
     # ---- R4 informational
     cj = P.fn("Optimizer::collect_join_tree")
